@@ -347,7 +347,7 @@ func sizeFlip(l, x *core.Lane, data []byte, fmap []gengen.FieldSpan, desc func(s
 		v2 := vals[x.Intn(len(vals))]
 		n := 0
 		for _, g := range cands {
-			if g.Off != f.Off && strings.HasSuffix(g.Name, suffix) && n < 60 {
+			if g.Off != f.Off && g.Len == f.Len && strings.HasSuffix(g.Name, suffix) && n < 60 {
 				put(g, v2)
 				n++
 			}
